@@ -30,6 +30,38 @@ pub(crate) fn validate_values(
     value_of_correct_type(diagnostics, schema, ty, &argument.value, var_defs);
 }
 
+/// Report the variables used inside `value` (the fields of an object given to a custom scalar)
+/// that the operation does not define.
+fn nested_variables_are_defined(
+    diagnostics: &mut DiagnosticList,
+    value: &Node<ast::Value>,
+    var_defs: &[Node<ast::VariableDefinition>],
+) {
+    match &**value {
+        ast::Value::Variable(var_name) => {
+            if !var_defs.iter().any(|v| v.name == *var_name) {
+                diagnostics.push(
+                    value.location(),
+                    DiagnosticData::UndefinedVariable {
+                        name: var_name.clone(),
+                    },
+                );
+            }
+        }
+        ast::Value::List(items) => {
+            for item in items {
+                nested_variables_are_defined(diagnostics, item, var_defs);
+            }
+        }
+        ast::Value::Object(fields) => {
+            for (_, field_value) in fields {
+                nested_variables_are_defined(diagnostics, field_value, var_defs);
+            }
+        }
+        _ => {}
+    }
+}
+
 pub(crate) fn value_of_correct_type(
     diagnostics: &mut DiagnosticList,
     schema: &crate::Schema,
@@ -200,7 +232,12 @@ pub(crate) fn value_of_correct_type(
             }
         }
         ast::Value::Object(obj) => match &type_definition {
-            schema::ExtendedType::Scalar(scalar) if !scalar.is_built_in() => {}
+            // Any value is valid for a custom scalar, but variables nested in it must be defined
+            schema::ExtendedType::Scalar(scalar) if !scalar.is_built_in() => {
+                for (_, value) in obj {
+                    nested_variables_are_defined(diagnostics, value, var_defs);
+                }
+            }
             schema::ExtendedType::InputObject(input_obj) => {
                 let undefined_field = obj
                     .iter()
